@@ -16,6 +16,8 @@ import (
 	"encoding/json"
 	"errors"
 	"fmt"
+	"runtime"
+	"strings"
 	"sync"
 	"testing"
 	"time"
@@ -55,6 +57,52 @@ type Case struct {
 	} `json:"frame_rel_header"`
 	Devs []encenv.Placement `json:"devs"`
 	Big  bool               `json:"big_stream,omitempty"` // the streamed 65 538-segment document (Len is ignored)
+	// behaviour of the collaborators (S5) and size of the header (S6); KeyOpt must be 0
+	WrapMode   int  `json:"wrap_mode,omitempty"`   // 0 pure; 1 zeroes its argument after wrapping; 2 overwrites its argument with the wrapped key (in place, returning the same slice, where the sizes agree); 3 identity wrap returning its argument
+	UnwrapMode int  `json:"unwrap_mode,omitempty"` // 0 pure; 1 the caller zeroes the slice its unwrap function returned once Decrypt has returned; 2 the caller overwrites it with another key
+	WipeLate   bool `json:"wipe_late,omitempty"`   // the caller yields (runtime.Gosched) before wiping
+	WFKLen     int  `json:"wfk_len,omitempty"`     // the vault returns an envelope of this many bytes (the wrapped key followed by padding)
+	NameLen    int  `json:"name_len,omitempty"`    // length of the key name
+	HdrTarget  int  `json:"header_len,omitempty"`  // the header length WFKLen/NameLen were chosen for
+}
+
+// MaxHeader is the limit stated in schemes/enc/v1 (fileKey.SignHeader: "The
+// header must not be bigger than 64KB", len > SegmentSize is refused).
+const MaxHeader = 64 << 10
+
+var wrapModeNames = []string{"pure", "scrubs-argument", "overwrites-argument", "identity-returning-argument"}
+var unwrapModeNames = []string{"pure", "caller-zeroes-returned-slice", "caller-overwrites-returned-slice"}
+
+func longName(n int) string {
+	b := make([]byte, n)
+	for i := range b {
+		b[i] = "abcdefghijklmnopqrstuvwxyz"[i%26]
+	}
+	return string(b)
+}
+
+// headerLen is the length of the three header lines for a wrapped key of w
+// bytes and a key name of n bytes (one-digit algorithm ids).
+func headerLen(w, n int) int {
+	mj, err := encv1ref.EncodeManifest(&encv1ref.Manifest{HasKeyName: n > 0, KeyName: longName(n), KW: 1, WFK: make([]byte, w), Cipher: 1, NoncePrefix: make([]byte, 7)}, nil)
+	if err != nil {
+		panic(err)
+	}
+	return len(encv1ref.BuildHeader(make([]byte, 32), mj))
+}
+
+// sizesFor picks the envelope and key-name lengths that make the header
+// exactly target bytes long: by growing the wrapped key (byWFK) or the name.
+func sizesFor(target, natural int, byWFK bool) (wfkLen, nameLen int) {
+	if !byWFK {
+		return 0, target - headerLen(natural, 0) - len(`"k":"",`)
+	}
+	// base64: three more bytes of wrapped key are four more characters
+	w := natural
+	if k := (target - headerLen(natural, 7)) / 4; k > 0 {
+		w += 3 * k
+	}
+	return w, 7 + target - headerLen(w, 7)
 }
 
 func (c *Case) String() string {
@@ -116,6 +164,40 @@ func runCase(c *Case, record bool) (masks [][]encenv.Mask, fails []failure) {
 	fail := func(key, f string, a ...any) { fails = append(fails, failure{key, fmt.Sprintf(f, a...)}) }
 	kw := encenv.KWByLabel(c.KW)
 	ko := keyOpts[c.KeyOpt]
+	encName := encKeyName
+	if c.NameLen > 0 {
+		encName = longName(c.NameLen)
+		ko.manifest, ko.vault = encName, encName
+	}
+	natLen := kw.WFKLen
+	if c.WrapMode == 3 {
+		natLen = 32
+	}
+	wfkLen := natLen
+	if c.WFKLen > natLen {
+		wfkLen = c.WFKLen
+	}
+	strip := func(w []byte) []byte {
+		if c.WFKLen > natLen && len(w) == c.WFKLen {
+			return w[:natLen]
+		}
+		return w
+	}
+	envelope := func(w []byte) []byte {
+		if c.WFKLen > len(w) {
+			return append(w[:len(w):len(w)], encenv.Pattern(c.WFKLen-len(w), 0x6B)...)
+		}
+		return w
+	}
+	refUnwrap := func(wfk []byte, id int, name string) ([]byte, error) {
+		if c.WrapMode == 3 {
+			if name != ko.vault {
+				return nil, fmt.Errorf("unwrap: no key named %q", name)
+			}
+			return append([]byte{}, strip(wfk)...), nil
+		}
+		return kw.RefUnwrapFn(ko.vault)(strip(wfk), id, name)
+	}
 	p := encenv.Pattern(c.Len, byte(c.Cipher*16+c.KeyOpt))
 	refCipher := c.Cipher
 	if refCipher == 0 {
@@ -126,8 +208,31 @@ func runCase(c *Case, record bool) (masks [][]encenv.Mask, fails []failure) {
 	var doc []byte
 	if c.Dir == 0 {
 		opts := v1.EncryptOptions{
-			WrapKeyFn: kw.WrapFn(encKeyName), Algorithm: v1.KeyAlgorithm(kw.Name),
-			KeyName: encKeyName, DecryptionKeyName: ko.decName, OmitKeyName: ko.omit,
+			Algorithm: v1.KeyAlgorithm(kw.Name),
+			KeyName:   encName, DecryptionKeyName: ko.decName, OmitKeyName: ko.omit,
+		}
+		pureWrap := kw.WrapFn(encName)
+		opts.WrapKeyFn = func(plain []byte, alg, name string, nonce []byte) ([]byte, []byte, error) {
+			if c.WrapMode == 3 {
+				if name != encName {
+					return nil, nil, fmt.Errorf("wrap: no key named %q", name)
+				}
+				return plain, nil, nil // the very slice that came in
+			}
+			w, _, err := pureWrap(plain, alg, name, nonce)
+			if err != nil {
+				return nil, nil, err
+			}
+			switch c.WrapMode {
+			case 1:
+				clear(plain)
+			case 2:
+				copy(plain, w)
+				if len(w) == len(plain) {
+					w = plain
+				}
+			}
+			return envelope(w), nil, nil
 		}
 		if c.Cipher != 0 {
 			cp := ciphers[c.Cipher]
@@ -137,6 +242,9 @@ func runCase(c *Case, record bool) (masks [][]encenv.Mask, fails []failure) {
 		srcP.SegSize, srcP.Chunk, srcP.Script, srcP.Record = encv1ref.SegmentSize, c.Policy[envP], encenv.ScriptFor(c.Devs, envP), record
 		stream, err := encenv.KitEncrypt(srcP, opts)
 		if err != nil {
+			if c.HdrTarget > MaxHeader {
+				return // refused, as the stated limit demands
+			}
 			fail("encrypt-returns-error", "Encrypt: %v", err)
 			return
 		}
@@ -149,19 +257,19 @@ func runCase(c *Case, record bool) (masks [][]encenv.Mask, fails []failure) {
 		}
 
 		// oracle 2: layout
-		for _, d := range encv1ref.Conformance(doc, encv1ref.Expect{PlainLen: c.Len, Cipher: refCipher, KW: kw.ID, KeyName: ko.manifest, WFKLen: kw.WFKLen}) {
+		for _, d := range encv1ref.Conformance(doc, encv1ref.Expect{PlainLen: c.Len, Cipher: refCipher, KW: kw.ID, KeyName: ko.manifest, WFKLen: wfkLen}) {
 			fail("format:"+d.Item, "ciphertext departs from the README: %s", d)
 		}
 
 		// oracle 3a: the reference opens kit's document
 		refName := ko.override
 		if c.KeyOpt == 4 {
-			if _, err := encv1ref.Decrypt(doc, "", kw.RefUnwrapFn(ko.vault)); !errors.Is(err, encv1ref.ErrNoKeyName) {
+			if _, err := encv1ref.Decrypt(doc, "", refUnwrap); !errors.Is(err, encv1ref.ErrNoKeyName) {
 				fail("format:member-k", "reference found a key name in a document written with OmitKeyName (%v)", err)
 			}
 			refName = ko.vault
 		}
-		got, err := encv1ref.Decrypt(doc, refName, kw.RefUnwrapFn(ko.vault))
+		got, err := encv1ref.Decrypt(doc, refName, refUnwrap)
 		if err != nil {
 			fail("reference-rejects-kit-output:"+refErrClass(err), "reference implementation cannot decrypt kit's ciphertext: %v", err)
 		} else if !bytes.Equal(got, p) {
@@ -172,10 +280,14 @@ func runCase(c *Case, record bool) (masks [][]encenv.Mask, fails []failure) {
 		fk := encenv.Pattern(32, byte(0xA0+c.Len%251))
 		np := encenv.Pattern(7, byte(0x50+c.Cipher))
 		wfk, err := kw.RefWrap(fk)
+		if c.WrapMode == 3 {
+			wfk, err = append([]byte{}, fk...), nil
+		}
 		if err != nil {
 			fail("machinery", "reference wrap: %v", err)
 			return
 		}
+		wfk = envelope(wfk)
 		doc, err = encv1ref.Encrypt(p, encv1ref.EncryptParams{
 			FileKey: fk, NoncePrefix: np, Cipher: refCipher, KW: kw.ID, WFK: wfk,
 			KeyName: ko.manifest, OmitKeyName: ko.manifest == "", FieldOrder: []string{"np", "cph", "wfk", "kw", "k"},
@@ -192,6 +304,9 @@ func runCase(c *Case, record bool) (masks [][]encenv.Mask, fails []failure) {
 	srcC := encenv.NewSource(doc)
 	srcC.Chunk, srcC.Script, srcC.Record = c.Policy[envC], encenv.ScriptFor(c.Devs, envC), record
 	h, _ := encv1ref.SplitHeader(doc)
+	if h != nil && c.HdrTarget > 0 && h.PayloadOffset != c.HdrTarget {
+		fail("machinery", "the header is %d bytes long, the case was built for %d", h.PayloadOffset, c.HdrTarget)
+	}
 	if h != nil {
 		srcC.HdrEnd = h.PayloadOffset
 		if c.Frame.Mul > 0 {
@@ -206,7 +321,37 @@ func runCase(c *Case, record bool) (masks [][]encenv.Mask, fails []failure) {
 			wfk = m.WFK
 		}
 	}
-	stream, err := encenv.KitDecrypt(srcC, v1.DecryptOptions{UnwrapKeyFn: kw.UnwrapFn(ko.vault, &asked, wfk), KeyName: ko.override})
+	pureUnwrap := kw.UnwrapFn(ko.vault, &asked, strip(wfk))
+	var handed []byte // the slice the unwrap function gave to Decrypt
+	unwrapFn := func(w []byte, alg, name string, nonce, tag []byte) ([]byte, error) {
+		var k []byte
+		var err error
+		if c.WrapMode == 3 {
+			asked = append(asked, name)
+			if name != ko.vault {
+				return nil, fmt.Errorf("unwrap: no key named %q", name)
+			}
+			k = append([]byte{}, strip(w)...)
+		} else {
+			k, err = pureUnwrap(strip(w), alg, name, nonce, tag)
+		}
+		handed = k
+		return k, err
+	}
+	var after func()
+	if c.UnwrapMode != 0 {
+		after = func() {
+			if c.WipeLate {
+				runtime.Gosched()
+			}
+			if c.UnwrapMode == 1 {
+				clear(handed)
+			} else {
+				copy(handed, encenv.Pattern(32, 0x3D))
+			}
+		}
+	}
+	stream, err := encenv.KitDecryptThen(srcC, v1.DecryptOptions{UnwrapKeyFn: unwrapFn, KeyName: ko.override}, after)
 	if c.KeyOpt == 4 {
 		masks[envC] = srcC.Masks
 		if !errors.Is(err, v1.ErrDecryptionKeyMissing) || stream != nil {
@@ -278,7 +423,7 @@ func run(r *enumx.Run, replay *enumx.ReplayCase) {
 		return
 	}
 
-	r.Rule("each evaluation is one complete Encrypt->Decrypt pipeline on the real code with all three oracles (round trip; README layout; reference implementation reads kit's document / kit reads the reference's document written with the manifest members in the opposite order). S1: full product cipher{unset,AES-GCM,CHACHA20-POLY1305} x 8 key-wrap configurations (5 algorithms, 2 aliases, RSA-4096) x 5 key-name options x 14 plaintext lengths x 2 directions. S2: uniform chunking policies (source chunk {fill,1,7,4096,65535,65536} x consumer buffer {big,1,7,4096}) for each pipeline half. S2h: the ciphertext source delivers uniform frames of headerLength+k bytes, k in -2..3, and 2*headerLength+1. S3: every set of <= bound deviations {0 bytes,1 byte,n-1 bytes,stop at segment boundary,data+EOF, Read ends at header end+k for k in -1..3 (ciphertext source) | 1-byte buffer,7-byte buffer} placed on the calls of the four environments, generated once each in (environment, call index) order from the applicability recorded in the parent run. S4 (thorough): one streamed 65538-segment document in both directions, so that segment counters beyond 65535 occur. Every evaluation is a distinct case by construction; none is trivial (each runs the full pipeline).")
+	r.Rule("each evaluation is one complete Encrypt->Decrypt pipeline on the real code with all three oracles (round trip; README layout; reference implementation reads kit's document / kit reads the reference's document written with the manifest members in the opposite order). S1: full product cipher{unset,AES-GCM,CHACHA20-POLY1305} x 8 key-wrap configurations (5 algorithms, 2 aliases, RSA-4096) x 5 key-name options x 14 plaintext lengths x 2 directions. S2: uniform chunking policies (source chunk {fill,1,7,4096,65535,65536} x consumer buffer {big,1,7,4096}) for each pipeline half. S2h: the ciphertext source delivers uniform frames of headerLength+k bytes, k in -2..3, and 2*headerLength+1. S3: every set of <= bound deviations {0 bytes,1 byte,n-1 bytes,stop at segment boundary,data+EOF, Read ends at header end+k for k in -1..3 (ciphertext source) | 1-byte buffer,7-byte buffer} placed on the calls of the four environments, generated once each in (environment, call index) order from the applicability recorded in the parent run. S5: wrap functions that scrub / overwrite / return the key buffer they were given and callers that zero or overwrite the slice their unwrap function returned right after Decrypt returns (immediately or after one yield; sequential under GOMAXPROCS(1)). S6: header lengths B-1,B,B+1 for B in {512..32768}, 65535, 65536 and 65537 (Encrypt must refuse or still round-trip) reached by a long wrapped-key envelope or a long key name. S4 (thorough): one streamed 65538-segment document in both directions, so that segment counters beyond 65535 occur. Every evaluation is a distinct case by construction; none is trivial (each runs the full pipeline).")
 
 	// S3 is cheap (a few thousand pipelines), so both tiers take all placements
 	// of <= 2 deviations; quick restricts S2/S3 to the boundary lengths.
@@ -295,6 +440,46 @@ func run(r *enumx.Run, replay *enumx.ReplayCase) {
 		r.Set("wall_s_"+name, time.Since(t0).Seconds())
 		t0 = time.Now()
 	}
+
+	// ---- S5: behaviour of the collaborators. Wrap functions that write to the
+	// key buffer they are given or return it; callers that wipe or overwrite the
+	// slice their unwrap function returned as soon as Decrypt has returned
+	// (immediately, or after yielding once). Run one at a time with
+	// GOMAXPROCS(1): the goroutine Decrypt starts cannot run before the caller
+	// yields, so "immediately" deterministically precedes everything that
+	// goroutine does and "after yielding" follows its start (up to an
+	// asynchronous preemption inside a window of a few instructions).
+	var s5 []*Case
+	type uw struct {
+		mode int
+		late bool
+	}
+	uws := []uw{{0, false}, {1, false}, {1, true}, {2, false}, {2, true}}
+	for _, n := range []int{0, 1, 65536, 65537} {
+		for ci := 1; ci <= 2; ci++ {
+			for _, wc := range []struct {
+				kw   string
+				mode int
+			}{{chunkKW, 0}, {chunkKW, 1}, {chunkKW, 2}, {"A256CBC-NOPAD", 0}, {"A256CBC-NOPAD", 1}, {"A256CBC-NOPAD", 2}, {"RSA-OAEP-256/2048", 1}, {chunkKW, 3}} {
+				for _, u := range uws {
+					s5 = append(s5, &Case{Len: n, Cipher: ci, KW: wc.kw, WrapMode: wc.mode, UnwrapMode: u.mode, WipeLate: u.late})
+					if wc.mode == 0 || wc.mode == 3 {
+						s5 = append(s5, &Case{Len: n, Cipher: ci, KW: wc.kw, Dir: 1, WrapMode: wc.mode, UnwrapMode: u.mode, WipeLate: u.late})
+					}
+				}
+			}
+		}
+	}
+	prev := runtime.GOMAXPROCS(1)
+	for _, c := range s5 {
+		_, fails := runCase(c, false)
+		report(c, fails)
+		r.Count(1, 1)
+	}
+	runtime.GOMAXPROCS(prev)
+	r.Space(fmt.Sprintf("S5 collaborator behaviour: %d pipelines = 4 lengths x 2 ciphers x 8 wrap configurations {%s} x 5 caller behaviours {pure; %s / %s, immediately or after one yield}, reference->kit for the non-writing wraps; sequential under GOMAXPROCS(1)", len(s5), strings.Join(wrapModeNames, ", "), unwrapModeNames[1], unwrapModeNames[2]))
+	r.Sample(s5[len(s5)/2+1])
+	lap("S5")
 
 	// ---- S4 (thorough only): the streamed 65 538-segment document, both
 	// directions, started now and joined at the end
@@ -407,6 +592,52 @@ func run(r *enumx.Run, replay *enumx.ReplayCase) {
 	}
 	r.Sample(s2h[len(s2h)/2+3])
 	lap("S2h")
+
+	// ---- S6: header sizes. The vault returns an envelope (wrapped key plus
+	// padding) or the key name is long, such that the three header lines are
+	// exactly B-1, B, B+1 bytes for B in {512, 1024, 4096, 8192, 16384, 32768},
+	// and 65535, 65536 (the stated maximum) and 65537 (Encrypt must refuse, or
+	// else what it produced must still decrypt). The reference writes documents
+	// up to the stated maximum only (the README itself states no limit).
+	var s6 []*Case
+	var targets []int
+	for _, b := range []int{512, 1024, 4096, 8192, 16384, 32768} {
+		targets = append(targets, b-1, b, b+1)
+	}
+	targets = append(targets, MaxHeader-1, MaxHeader, MaxHeader+1)
+	natural := encenv.KWByLabel(chunkKW).WFKLen
+	for _, t := range targets {
+		for _, byWFK := range []bool{true, false} {
+			w, nl := sizesFor(t, natural, byWFK)
+			for _, n := range []int{0, 1, 65536} {
+				for ci := 1; ci <= 2; ci++ {
+					for dir := 0; dir < 2; dir++ {
+						if dir == 1 && t > MaxHeader {
+							continue
+						}
+						for _, chunk := range []int{0, 1, 512} {
+							if chunk == 1 && n > 1 {
+								continue
+							}
+							s6 = append(s6, &Case{Len: n, Cipher: ci, KW: chunkKW, Dir: dir, WFKLen: w, NameLen: nl, HdrTarget: t, Policy: [4]int{0, 0, chunk, 0}})
+						}
+					}
+				}
+			}
+		}
+	}
+	done = r.Parallel(len(s6), func(i int) {
+		_, fails := runCase(s6[i], false)
+		report(s6[i], fails)
+		r.Count(1, 1)
+	})
+	if done == len(s6) {
+		r.Space(fmt.Sprintf("S6 header sizes: %d pipelines = header lengths %v x {long wrapped key, long key name} x lengths {0,1,65536} x 2 ciphers x 2 directions (reference->kit up to %d) x ciphertext chunking {fill, 1 byte (short messages), 512}", len(s6), targets, MaxHeader))
+	} else {
+		r.Incomplete(fmt.Sprintf("S6 header sizes: %d of %d", done, len(s6)))
+	}
+	r.Sample(s6[len(s6)/2])
+	lap("S6")
 
 	// ---- S3
 	type root struct {
